@@ -17,7 +17,7 @@ try:
     d0 = sh(f"cd /tmp && timeout 1200 /venv/bin/python {src}/demo.py {wt}", env=env); ran.append(("demo pristine", d0.returncode))
     a = sh(f"git -C {wt} apply {src}/patch.diff"); assert a.returncode == 0, a.stderr
     d1 = sh(f"cd /tmp && timeout 1200 /venv/bin/python {src}/demo.py {wt}", env=env); ran.append(("demo patched", d1.returncode))
-    b = sh(f"/var/tmp/seedtools/run_baseline.py {wt}"); ran.append(("baseline patched", b.stdout.strip().splitlines()[0] if b.stdout else b.stderr[-200:]))
+    b = sh(f"/verif/tools/run_baseline.py {wt}"); ran.append(("baseline patched", b.stdout.strip().splitlines()[0] if b.stdout else b.stderr[-200:]))
     ok = d0.returncode == 0 and d1.returncode != 0 and b.returncode == 0
     print(pid, mn, "CONFIRMED" if ok else "REJECTED", ran)
     if ok:
